@@ -1,8 +1,29 @@
 (* C07 -- compatible preferred candidates are selected exactly. *)
-From Resolvo Require Import Spec.Oracle.
+From Resolvo Require Import Spec.Oracle Cdcl.CheckRun.
 
 Theorem C07_oracle_sound : forall u P G,
   o_greedy u P = Some G -> pr_soft P = [] /\ greedy_ok (table_provider u) P G.
 Proof. exact o_greedy_sound. Qed.
 Check C07_oracle_sound : forall u P G,
   o_greedy u P = Some G -> pr_soft P = [] /\ greedy_ok (table_provider u) P G.
+
+(* invariant over every run: the trail stays inside the assignment of the greedy selection *)
+Theorem C07_run_invariant : forall U P, WF U -> forall db G,
+  pr_soft P = [] -> greedy_ok U P G -> facts_ok U P db = true -> learnts_ok [] db = true ->
+  forall evs tr tr',
+  holds U db G (tlits tr) -> run_events (pr_soft P) db evs tr = Some tr' -> holds U db G (tlits tr').
+Proof. exact run_holds. Qed.
+
+(* every run that announces a solution on a greedy_ok problem announces exactly G *)
+Theorem C07_greedy_exact : forall U P, WF U -> forall db G,
+  pr_soft P = [] -> greedy_ok U P G -> facts_ok U P db = true -> learnts_ok [] db = true ->
+  forall evs tr sol,
+  run_events (pr_soft P) db evs [] = Some tr -> check_sat U P db (tlits tr) sol = true -> same_set sol G.
+Proof. exact greedy_final. Qed.
+
+(* trace inclusion *)
+Theorem C07_trace_greedy : forall u P lg sol G,
+  check_sat_log u P lg sol = true -> pr_soft P = [] -> greedy_ok (table_provider u) P G -> same_set sol G.
+Proof. exact sat_log_greedy. Qed.
+Check C07_trace_greedy : forall u P lg sol G,
+  check_sat_log u P lg sol = true -> pr_soft P = [] -> greedy_ok (table_provider u) P G -> same_set sol G.
